@@ -114,12 +114,19 @@ impl<'a, 'b> VP<'a, 'b> {
             V::Str(s) => self.string(s),
             V::List(l) => {
                 self.out.push('[');
+                if !l.is_empty() {
+                    self.list_gap(depth);
+                }
                 for (i, x) in l.iter().enumerate() {
                     if i > 0 {
+                        self.list_gap(depth);
                         self.out.push(',');
                         self.list_break(depth);
                     }
                     self.value(x, depth);
+                }
+                if !l.is_empty() {
+                    self.list_gap(depth);
                 }
                 self.out.push(']');
             }
@@ -149,6 +156,21 @@ impl<'a, 'b> VP<'a, 'b> {
             }
         }
     }
+    /// blanks or a line break where a list literal allows them besides after a comma: after `[`,
+    /// before a comma (leading-comma style), before `]`
+    fn list_gap(&mut self, depth: usize) {
+        if self.u.chance(self.p_layout, 16) {
+            match self.u.below(3) {
+                0 => self.out.push(' '),
+                1 => self.out.push_str("  "),
+                _ => {
+                    self.out.push('\n');
+                    self.ind(depth + 2);
+                    *self.used.entry("break-in-list").or_default() += 1;
+                }
+            }
+        }
+    }
     fn list_break(&mut self, depth: usize) {
         if self.u.chance(self.p_layout, 8) {
             self.out.push('\n');
@@ -164,12 +186,19 @@ impl<'a, 'b> VP<'a, 'b> {
             Lit::V(v) => self.value(v, depth),
             Lit::List(xs) => {
                 self.out.push('[');
+                if !xs.is_empty() {
+                    self.list_gap(depth);
+                }
                 for (i, x) in xs.iter().enumerate() {
                     if i > 0 {
+                        self.list_gap(depth);
                         self.out.push(',');
                         self.list_break(depth);
                     }
                     self.lit(x, depth);
+                }
+                if !xs.is_empty() {
+                    self.list_gap(depth);
                 }
                 self.out.push(']');
             }
